@@ -164,6 +164,19 @@ pub unsafe extern "C" fn memset(s: *mut u8, c: core::ffi::c_int, n: usize) -> *m
     s
 }
 
+/// Recent LLVM versions recognise byte loops that search for a NUL terminator (e.g. `rusl`'s
+/// `strlen`) and replace them with a call to the `strlen` symbol in optimised builds,
+/// so it has to be provided alongside the other mem-symbols or release binaries fail to link.
+#[no_mangle]
+#[expect(clippy::missing_safety_doc)]
+pub unsafe extern "C" fn strlen(s: *const core::ffi::c_char) -> usize {
+    let mut n = 0;
+    while *s.add(n) != 0 {
+        n += 1;
+    }
+    n
+}
+
 #[inline(always)]
 unsafe fn compare_bytes(s1: *const u8, s2: *const u8, n: usize) -> i32 {
     let mut i = 0;
